@@ -321,6 +321,22 @@ def canon_use_sets(fn):
     return f
 
 
+def _takes_apart(fc, reach):
+    """is this path fact a pattern / loop over (part of) the child, i.e. does it only say `the child has this shape`?"""
+    def touches(e):
+        return e is not None and bool({p_["path"] for p_ in walk(e) if p_["k"] == "Path"} & reach)
+
+    if fc[0] == "iflet":
+        return bool(fc[3]) and touches(fc[2])
+    if fc[0] == "arm":
+        return touches(fc[1]) and not fc[3]
+    if fc[0] == "loop":
+        return touches(fc[3])
+    if fc[0] == "closure":
+        return True
+    return False
+
+
 def rule_uses(ctx):
     R = "C09.5"
     ctx.rule(R, "variable uses are recorded in the class of the variable's type (local / signal / component) for reads (Variable, Access, Update = read of the previous whole-array version) and writes (Substitution), and every child's reads are merged into its parent for all three classes")
@@ -374,6 +390,21 @@ def rule_uses(ctx):
             called = any(("%s.cache_variable_use()" % x) in t for x in reach)
             n += 1
             ctx.check(R, "Expression::%s.%s/uses-merged" % (v, f), not miss and called, "classes not merged: %s; child cached: %s" % (miss, called), site(EI, a))
+            # ... and merged whenever the child exists: the only conditions on the way to the merge are the patterns
+            # and loops that take the child apart, never a test of something else
+            gated = []
+            for c in CLASSES:
+                cands = [m for m in method_calls(a["body"], "extend") if re.fullmatch(r"%s_read" % c, render(strip(m["recv"])).replace(" ", "")) and any(re.match(r"%s\.%s_read\(\)" % (re.escape(x), c), render(strip(m["args"][0])).replace(" ", "").lstrip("&")) for x in reach)]
+                if not cands:
+                    continue
+                best = None
+                for m in cands:
+                    extra = [fact_str(fc) for fc in (conditions_to(a["body"], m) or []) if not _takes_apart(fc, reach)]
+                    if best is None or len(extra) < len(best):
+                        best = extra
+                if best:
+                    gated.append("%s only under %s" % (c, best[:3]))
+            ctx.check(R, "Expression::%s.%s/uses-merged-unconditionally" % (v, f), not gated, "the child's reads reach the parent only on some executions: %s" % gated, site(EI, a))
     ctx.floor(R, "expression children", n, 11)
     # Statement: Substitution writes
     sfn = find_fn(SI, "cache_variable_use", "VariableMeta for Statement")
